@@ -35,3 +35,26 @@ pub fn trace_instruction(function: &str, ip: usize, opcode: u8, frames: usize, o
         }
     });
 }
+
+/// H2: when `MSCRIPT_VERIF_TYPED_PRINT` is set, `printn` prefixes each value with the
+/// name of its run-time kind.
+pub fn typed_print_enabled() -> bool {
+    thread_local! {
+        static ON: bool = std::env::var_os("MSCRIPT_VERIF_TYPED_PRINT").is_some();
+    }
+    ON.with(|on| *on)
+}
+
+/// The run-time kind of a value, as text (`Int`, `BigInt`, `Optional(Int)`, `&Int`, ...).
+pub fn kind_of(primitive: &crate::Primitive) -> String {
+    use crate::Primitive as P;
+    match primitive {
+        P::Optional(Some(inner)) => format!("Optional({})", kind_of(inner)),
+        P::Optional(None) => "Nil".to_owned(),
+        P::HeapPrimitive(hp) => match hp.to_owned_primitive() {
+            Ok(view) => format!("&{}", kind_of(&view)),
+            Err(_) => "&Nil".to_owned(),
+        },
+        other => format!("{:?}", other.ty()),
+    }
+}
